@@ -319,7 +319,7 @@ class _conf_guard:
 
 class C08(PropertyCheck):
     pid = "C08"
-    loop_tie_modules = ["VecFit"]  # fit_util + FitDataset/FitImaging glue, regenerated by translate_vec (design_notes/TIES_C08vec.md)
+    loop_tie_modules = ["VecFit", "LoopsFit2"]  # fit_util + FitDataset/FitImaging glue (translate_vec), noise-map replacement loop
     title = "fit statistics and evidence"
     rtol = Fraction(1, 10 ** 9)
     nontrivial_rule = (
